@@ -46,6 +46,19 @@ def _runner_main(jobs_path: str, out_path: str) -> None:
 
     jobs = json.load(open(jobs_path))
     U.PARENT_MARK = f'parent-{os.getpid()}'
+
+    unraisable: list = []
+
+    def _unraisable(u):
+        # an exception raised where the interpreter cannot propagate it (finalizers, weak-reference callbacks, ...):
+        # a KeyboardInterrupt that ends up here never reaches labtech.  Only remembered here (no I/O inside the hook);
+        # reported with the job's observations.
+        try:
+            # (u.object may be half-deallocated: it is not touched -- repr() of it crashed the interpreter)
+            unraisable.append((u.exc_type.__name__ if u.exc_type is not None else '?', '', ''))
+        except BaseException:   # noqa
+            pass
+    sys.unraisablehook = _unraisable
     base = Path(os.environ['LV_R3_DIR'])
 
     class Collect(logging.Handler):
@@ -135,6 +148,9 @@ def _runner_main(jobs_path: str, out_path: str) -> None:
             _verif.emit('obs_cache', cached=cached, vals=vals)
             _verif.emit('obs_marks', insts=insts)
             _verif.emit('obs_logs', delivered=handler.msgs)
+            for exc_name, where, msg in unraisable:
+                _verif.emit('unraisable', exc=exc_name, where=where, msg=msg)
+            del unraisable[:]
             _verif.emit('job_end', job=job['id'])
             out.write(json.dumps({'tid': job['id'], 'done': True}) + '\n')
             out.flush()
@@ -296,6 +312,12 @@ class Controller:
                 if self.proc.poll() is not None:
                     recs = tail.read()
                     if not recs:
+                        if self.proc.returncode < 0:
+                            # the interpreter itself crashed (seen: SIGSEGV, "deallocated BytesIO object has exported
+                            # buffers", when a KeyboardInterrupt lands inside unpickling of a manager reply): the
+                            # execution is inconclusive; the remaining jobs get a fresh runner
+                            return {'job': job, 'events': ev or [{'e': 'job_begin', 'pid': 0, 'mark': ''}], 'runner_pid': runner_pid,
+                                    'hang': False, 'unused_actions': actions, 'aborted': True, 'crashed': self.proc.returncode}
                         raise MachineryTimeout(f'R3 runner exited early ({self.proc.returncode}): '
                                                f'{open(self.dir / "err.txt").read()[-2000:]}')
                 else:
@@ -470,7 +492,8 @@ def to_trace(r: dict) -> dict:
     keys = D.lab_context(1, cfg['n'])
     ck = [U.expected_ctx_keys(cfg['typ'][t - 1], t, keys) for t in range(1, cfg['n'] + 1)]
     t = monitor.to_monitor(job['id'], cfg, ev[1:], real=True, caller_pid=jb['pid'], mark=jb['mark'], ctxkeys=ck)
-    t['meta'] = {'hang': r['hang'], 'unused_actions': r['unused_actions'], 'events': len(ev)}
+    t['meta'] = {'hang': r['hang'], 'unused_actions': r['unused_actions'], 'events': len(ev), 'crashed': r.get('crashed', 0),
+                 'unraisable': [[e.get('exc'), e.get('where'), e.get('msg')] for e in ev if e['e'] == 'unraisable']}
     return t
 
 
